@@ -554,6 +554,8 @@ def _detached():
         'new Selector': lambda: C.Selector('a b'),
         'new SelectorList': lambda: C.SelectorList('a, b'),
         'new MediaList': lambda: S.MediaList('print, tv'),
+        # a list that holds `all` BESIDE another medium: neither the parser nor mediaText produce it (both collapse it), item assignment does
+        'new MediaList (all beside print, by item assignment)': lambda: _all_beside_print(),
         'new MediaQuery': lambda: S.MediaQuery('print and (min-width: 1px)'),
         # detached objects that resolve namespace prefixes with a mapping of their own (the (text, namespaces) constructor form): selector,
         # selector list, style rule, style rule inside a detached @media rule - and every selector / selector list inside them as target
@@ -570,6 +572,13 @@ def _detached():
         'new CSSMediaRule>style (namespaced).selectorList': lambda: _inside(_ns_media(), lambda m: m.cssRules[0].selectorList),
         'new CSSMediaRule>style (namespaced).selector[0]': lambda: _inside(_ns_media(), lambda m: m.cssRules[0].selectorList[0]),
     }
+
+
+def _all_beside_print():
+    import cssutils.stylesheets as S
+    ml = S.MediaList('screen, print')
+    ml[0] = 'all'
+    return ml
 
 
 NS_DETACHED = {'p': 'u', 'q': 'v', '': 'd'}
@@ -888,7 +897,7 @@ INPUTS = {
     ('SelectorList', '__delitem__'): [('position', (99,)), ('position', (-99,)), ('position', ('x',))],
     # ---- media
     ('MediaList', 'mediaText'): BAD_MEDIALIST,
-    ('MediaList', 'appendMedium'): BAD_MEDIAQUERY + [('position', ('tty',)), ('position', ('all',)), ('position', ('print',))],
+    ('MediaList', 'appendMedium'): BAD_MEDIAQUERY + [('position', ('tty',)), ('position', ('all',)), ('position', ('print',)), ('position', ('PRINT',))],
     ('MediaList', 'append'): BAD_MEDIAQUERY + [('position', ('tty',)), ('position', ('all',))],
     ('MediaList', 'deleteMedium'): [('position', ('tty',)), ('position', ('$',)), ('position', ('',)), ('position', ('all',)), ('position', ('print and (min-width: 1px)',)), ('position', ('not print',)), ('position', ('prin',))],
     ('MediaList', '__setitem__'): [(st, (0,) + a) for st, a in BAD_MEDIAQUERY] + [(st, (-1,) + a) for st, a in BAD_MEDIAQUERY] + [('position', (99, 'tty')), ('position', (-99, 'tty'))],
